@@ -55,7 +55,7 @@ def run(module, cfg=None, workers=8, mode="check", simulate=None, depth=None, se
     workdir = workdir or os.path.join(VERIF, ".work", "tlc")
     meta = os.path.join(workdir, "meta_%s_%d_%d" % (module, os.getpid(), int(time.time() * 1000) % 100000))
     os.makedirs(meta, exist_ok=True)
-    jopts = ["-XX:+UseParallelGC", "-Xmx" + heap]
+    jopts = ["-XX:+UseParallelGC", "-Xmx" + heap, "-Djava.io.tmpdir=" + meta]      # (TLC's scratch directories stay in the run's own folder)
     if dfs:
         jopts.append("-Dtlc2.tool.queue.IStateQueue=StateDeque")
     cmd = ["java"] + jopts + ["-cp", JAR + ":" + DEPS, "tlc2.TLC",
